@@ -36,7 +36,10 @@ def main():
     try:
         env = dict(os.environ, PYTHONPATH=wt, MPLBACKEND="Agg")
         env.pop("GLUE_VERIF_HOOKS", None)
-        demo = os.path.join(src, "demo.py")
+        # run the demo from <worktree>/_seeded/demo.py: demos put their own worktree root on sys.path
+        os.makedirs(os.path.join(wt, "_seeded"), exist_ok=True)
+        demo = os.path.join(wt, "_seeded", "demo.py")
+        shutil.copy(os.path.join(src, "demo.py"), demo)
         r0 = sh(["/venv/bin/python", demo], cwd=wt, env=env)
         conf["demo_exit_clean"] = r0.returncode
         ra = sh(["git", "-C", wt, "apply", os.path.join(src, "patch.diff")])
